@@ -71,8 +71,8 @@ CFG = {
             "(f3) U cases: bit patterns into 6 packed UNORM/SNORM8 formats against the bit-level quantisers - 28 "
             "specials, the rounding boundary (k+0.5)/MAX +-2 ulp of every code k, 2 500 (thorough 60 000) PRNG "
             "pixels per format; (f4) W cases: bit patterns into R16_SNORM, R16G16_SNORM, R16G16B16A16_SNORM against "
-            "the binary64 model of s16::from_uf32 - 54 specials (NaN payloads of both signs, +-inf, zeros, subnormals, "
-            "+-1 and +-0.5 +-2 ulp, 2^-53 region), every exponent field x 6 fractions (both signs), the rounding "
+            "the binary64 model of s16::from_uf32 - 60 specials (NaN payloads of both signs, +-inf, zeros, subnormals, "
+            "+-1 and +-0.5 +-2 ulp, the exact ties 0.25/0.75 +-1 ulp, 2^-53 region), every exponent field x 6 fractions (both signs), the rounding "
             "boundary (k+0.5)/65534 +-2 ulp of ~670 codes k (first/last 40, powers of two, every 131st; thorough: every "
             "17th and every code once), 2 500 (thorough 60 000) PRNG pixels per format; "
             "(g) PRNG over the whole quantifier. Every f32 case with "
